@@ -29,9 +29,15 @@ def generate(seed, stratum, tier):
   cap = rng.randrange(2, 5)
   p = rng.choice([0.1, 0.25, 1.0])
   c0 = [['start', 0]]
+  finite = False
   for slot in range(cap):
-    c0.append(['timed', 0, rng.choice(['fifo', 'lifo']), 'TA', p * rng.choice([1, 2]), 0, True, slot])
-  if rng.random() < 0.5:
+    times = 0
+    if slot and rng.random() < 0.25:
+      times, finite = 1, True      # a tracked source that runs out on its own (its entry stays in the table)
+    c0.append(['timed', 0, rng.choice(['fifo', 'lifo']), 'TA', p * rng.choice([1, 2]), times, True, slot])
+  if finite:
+    c0.append(['sleep', p * rng.choice([2.5, 3])])
+  elif rng.random() < 0.5:
     c0.append(['sleep', p * rng.choice([0.5, 1, 1.5])])
   extra = rng.randrange(1, 3)
   for x in range(extra):
